@@ -156,9 +156,13 @@ fn main() {
             if let Some(d) = &logdir { std::fs::create_dir_all(d).unwrap(); }
             let out = std::io::stdout();
             let mut nfail = 0;
+            // --resume pi:si : skip everything before that execution (the check continues after an execution that killed the process)
+            let resume: (usize, u64) = arg(&args, "--resume").and_then(|s| { let mut it = s.split(':'); Some((it.next()?.parse().ok()?, it.next()?.parse().ok()?)) }).unwrap_or((0, 0));
             'outer: for (pi, p) in progs.iter().enumerate() {
                 for si in 0..scheds {
+                    if (pi, si) < resume { continue; }
                     let sseed = seed.wrapping_mul(1_000_003).wrapping_add((pi as u64) * 1009 + si);
+                    { let mut o = out.lock(); writeln!(o, "BEGIN\t{}\t{}\t{}\t{}", pi, si, sseed, p.text()).unwrap(); o.flush().unwrap(); }
                     let lf = logdir.as_ref().map(|d| format!("{}/p{}_s{}.log", d, pi, si));
                     let r = execute(p, kind_of(&skind, si), sseed, fail_fast, touch_yield, lf.as_deref(), max_steps);
                     let mut o = out.lock();
